@@ -14,6 +14,7 @@ require (
 	github.com/rs/zerolog v1.33.0
 	github.com/sasha-s/go-deadlock v0.3.5
 	github.com/shopspring/decimal v1.4.0
+	github.com/spf13/viper v1.19.0
 	github.com/wealdtech/go-eth2-types/v2 v2.8.2
 	github.com/wealdtech/go-eth2-wallet-encryptor-keystorev4 v1.4.1
 	github.com/wealdtech/go-eth2-wallet-nd/v2 v2.5.0
@@ -65,7 +66,6 @@ require (
 	github.com/spf13/afero v1.11.0 // indirect
 	github.com/spf13/cast v1.7.0 // indirect
 	github.com/spf13/pflag v1.0.5 // indirect
-	github.com/spf13/viper v1.19.0 // indirect
 	github.com/subosito/gotenv v1.6.0 // indirect
 	github.com/ugorji/go/codec v1.2.12 // indirect
 	github.com/wealdtech/eth2-signer-api v1.7.2 // indirect
